@@ -98,15 +98,28 @@ Section Ts.
   Proof. destruct k as [| | | | | | | | | | | | | | | | | | | |fk name line col]; try destruct fk; intros H1 H2 H3;
            try discriminate; try congruence; reflexivity. Qed.
 
-  Lemma ts_calc_exact f : fn_good Ts f -> ts_calc q f = doc_depth (fn_body f).
+  Lemma nty_not_body t : String.eqb (nty (to_ts ts_names t)) ts_body_type = false.
+  Proof. destruct t as [k cs]. destruct k as [| | | | | | | | | | | | | | | | | | | |fk name line col]; try destruct fk; reflexivity. Qed.
+
+  (* an arrow function with an expression body has no statement block: depth 0, never reported *)
+  Lemma ts_calc_unjudged f : fn_kind f = FArrowExpr -> ts_calc q f = 0.
   Proof.
-    intros (Hw & Ha & _ & Hk). unfold ts_calc, fn_node. rewrite Hq. cbn [negb].
+    intros Hk. unfold ts_calc, fn_node. rewrite Hk. cbn [to_ts]. unfold body_of. cbn [ts_names n_wrap n_blocked n_of ts_ftype wrap_in].
+    unfold ts_calc_node. cbn [nkids].
+    assert (Hnone : find (fun c => String.eqb (nty c) ts_body_type) (map (to_ts ts_names) (fn_body f)) = None).
+    { induction (fn_body f) as [|t ts IH]; [reflexivity|]. cbn [map find]. rewrite nty_not_body. exact IH. }
+    rewrite Hnone. reflexivity.
+  Qed.
+
+  Lemma ts_calc_exact f : fn_good Ts f -> judged (fn_kind f) = true -> ts_calc q f = doc_depth (fn_body f).
+  Proof.
+    intros (Hw & Ha & _ & Hk) Hj. unfold ts_calc, fn_node. rewrite Hq. cbn [negb].
     rewrite (calc_value ts_nesting_types true ts_names eq_refl eq_refl eq_refl (kind_ok Ts)
                         eq_refl eq_refl eq_refl eq_refl ts_facts ts_start_depth ts_body_type).
     - reflexivity.
     - reflexivity.
     - destruct (fn_kind f); try discriminate; reflexivity.
-    - reflexivity.
+    - destruct (fn_kind f); try discriminate; reflexivity.
     - reflexivity.
     - exact Hw.
     - exact Ha.
@@ -117,12 +130,15 @@ Section Ts.
   Proof.
     intros Hg. unfold ts_report, spec_report. apply flat_map_ext_in.
     pose proof (file_fns_good Ts file Hg) as HF. rewrite Forall_forall in HF |- *. intros f Hf.
-    specialize (HF f Hf). rewrite (ts_calc_exact f HF). destruct HF as (_ & _ & _ & Hk).
-    unfold report_fn.
+    specialize (HF f Hf).
     assert (Hfound : smem (ts_ftype (fn_kind f)) ts_function_types = true)
-      by (destruct (fn_kind f); try discriminate; reflexivity).
-    rewrite Hfound. change ts_skip_cmp with CLe. cbn [cmp_nat].
-    rewrite <- skip_le. destruct (doc_depth (fn_body f) <=? limit); reflexivity.
+      by (destruct HF as (_ & _ & _ & Hk); destruct (fn_kind f); try discriminate; reflexivity).
+    unfold report_fn. rewrite Hfound. change ts_skip_cmp with CLe. cbn [cmp_nat].
+    destruct (judged (fn_kind f)) eqn:Hj; cbn [andb].
+    - rewrite (ts_calc_exact f HF Hj).
+      rewrite <- skip_le. destruct (doc_depth (fn_body f) <=? limit); reflexivity.
+    - assert (Hk : fn_kind f = FArrowExpr) by (destruct (fn_kind f); try discriminate; reflexivity).
+      rewrite (ts_calc_unjudged f Hk). reflexivity.
   Qed.
 End Ts.
 
@@ -157,6 +173,8 @@ Section Rs.
     intros Hg. unfold rs_report, spec_report. apply flat_map_ext_in.
     pose proof (file_fns_good Rs file Hg) as HF. rewrite Forall_forall in HF |- *. intros f Hf.
     specialize (HF f Hf). rewrite (rs_calc_exact f HF).
+    assert (Hj : judged (fn_kind f) = true) by (destruct HF as (_ & _ & _ & Hk); destruct (fn_kind f); try discriminate; reflexivity).
+    rewrite Hj. cbn [andb].
     unfold report_fn. change (smem "function_item" rs_function_types) with true. change rs_skip_cmp with CLe. cbn [cmp_nat].
     rewrite <- skip_le. destruct (doc_depth (fn_body f) <=? limit); reflexivity.
   Qed.
@@ -189,6 +207,8 @@ Section Py.
     intros Hlim Hg. unfold py_report, spec_report. apply flat_map_ext_in.
     pose proof (file_fns_good Py file Hg) as HF. rewrite Forall_forall in HF |- *. intros f Hf.
     specialize (HF f Hf). rewrite (py_calc_exact f HF). destruct HF as (_ & _ & _ & Hk).
+    assert (Hj : judged (fn_kind f) = true) by (destruct (fn_kind f); try discriminate; reflexivity).
+    rewrite Hj. cbn [andb].
     unfold report_fn. rewrite (py_found f Hk). change py_skip_cmp with CLe. cbn [cmp_nat].
     unfold doc_depth, sh. destruct (maxl (map nest (fn_body f))) as [|m] eqn:Em; cbn [Nat.eqb].
     - (* no control structure: depth 1 never exceeds a limit >= 1 *)
